@@ -40,7 +40,7 @@ func refIsCodeAttr(e, a, rel string) bool {
 	return false
 }
 
-var c02Rels = []string{"", " stylesheet ", " icon ", " alternate stylesheet ", " manifest ", " preload modulepreload ", " nofollow "}
+var c02Rels = []string{"", " stylesheet ", " icon ", " alternate stylesheet ", " manifest ", " preload modulepreload ", " nofollow ", " modulepreload ", " x-prefetch stylesheet ", " import ", " apple-touch-icon stylesheet "}
 
 func vHarness_C02_codeattr() {
 	le, la, n := vParam("le"), vParam("la"), vParam("n")
